@@ -1,18 +1,29 @@
 /-
   Property C10: parsing by the iCalendar push parser (src/evical.c, model `Echse.Model.Ical`) does not depend
-  on how the bytes arrive.  Statements and short proofs; the work is in `Echse/Lemmas/Ical1 .. Ical19` and
+  on how the bytes arrive.  Statements and short proofs; the work is in `Echse/Lemmas/Ical1 .. Ical20` and
   `IcalFlat`: `feed` over ANY chunking computes a byte-at-a-time automaton (`runA`, Ical8) over the
-  concatenation, followed by `finish` (Ical17) for the last pull.
+  concatenation, followed by `finish` (Ical17) for the last pull, or by `finishEof` (Ical20) for a trailing
+  empty push and the last pull.
 
   Since the repair of the newline mark (a flag `eolp` of the parser instead of a `\001` byte behind a
   NON-EMPTY stash) an empty line whose newline ends a buffer can be continued by a fold in the next buffer
   just as within one buffer.  The former condition `NoFoldOnEmpty` (no fold right after an empty line) is
-  gone from `Tidy`, and its witness `empty_fold_matters` has become `empty_fold_independent`: the two
-  chunkings of that witness now give the same lines, and every other chunking of it does, too
-  (`empty_fold_any_chunking`, an instance of `chunk_independent`).  What is left in `Tidy` - no backslash,
-  logical lines that fit the stash, a plain last line - still has a witness each, below.
+  gone from `Tidy`, and its witness `empty_fold_matters` has become `empty_fold_independent`.
+
+  Since the stash branch of `_ical_pull` sets `BI = p->bsz` (the buffer is used up) the pre-examination of a
+  marked stash by the LAST pull no longer looks at a stale byte of the old buffer: it reads 0 behind the
+  buffer, so a complete last line is always acted upon.  The former condition `LastLinePlain` is gone from
+  `Tidy` as well, and its witnesses `last_line_matters`, `leading_space_matters` have become
+  `last_line_independent`, `leading_space_independent`.  What is left in `Tidy` - no backslash, logical lines
+  that fit the stash - still has a witness each, below.
+
+  Since the last pull of the model hands back a cancel or reply as well (verbs `LU`, `LR` next to `L`, as
+  `echs_evical_last_pull` does), a trailing empty push differs from the plain protocol in nothing but the mark
+  `L` on the verb of the last instruction (`chunk_independent_eof_modL`).  The former witness
+  `eof_cancel_matters` (a cancellation completed by the last line: an instruction after an empty push, none
+  without) has become `eof_cancel_marked`.
 -/
-import Echse.Lemmas.Ical19
+import Echse.Lemmas.Ical20
 namespace C10
 open Echse.Ical
 
@@ -30,20 +41,24 @@ partly in the buffer is dropped when `bytes left in the buffer ≥ 1024 - stash 
 unfold to (finding D18d; witness below: `raw_matters`). -/
 def LinesShort (bs : List Byte) : Prop := allSc (fun s _ => decide (s.raw < 1000)) {} bs = true
 
-/-- if the input ends in a complete non-empty line, that last logical line has no SP/TAB content byte:
-the last pull decides whether the marked stash is a complete line by looking at `*BP` of the OLD buffer
-(the first unconsumed byte of the last chunk), so a last line cut in front of a space is never processed
-(witnesses below: `last_line_matters`, `leading_space_matters`). -/
+/-- FORMER conjunct of `Tidy`, no longer needed: if the input ends in a complete non-empty line, that last
+logical line has no SP/TAB content byte.  The last pull used to decide whether the marked stash is a complete
+line by looking at `*BP` of the OLD buffer (the first unconsumed byte of the last chunk); with `BI = p->bsz`
+in the stash branch it looks behind the buffer.  Kept to state that the former witnesses violate it
+(`last_line_independent`, `leading_space_independent`). -/
 def LastLinePlain (bs : List Byte) : Prop :=
   ((runSc {} bs).pend && !(runSc {} bs).empty && (runSc {} bs).sp) = false
 
 def Tidy (bs : List Byte) : Prop :=
   (∀ b ∈ bs, b ≠ 92) ∧        -- no backslash (finding D17)
   (∀ b ∈ bs, b ≠ 0) ∧         -- no NUL (as asked for; the proof does not use it)
-  LinesShort bs ∧ LastLinePlain bs
+  LinesShort bs
+
+instance (bs : List Byte) : Decidable (LastLinePlain bs) := by
+  unfold LastLinePlain; infer_instance
 
 instance (bs : List Byte) : Decidable (Tidy bs) := by
-  unfold Tidy LinesShort LastLinePlain; infer_instance
+  unfold Tidy LinesShort; infer_instance
 
 theorem allSc_and (φ ψ : Sc → List Byte → Bool) : ∀ (l : List Byte) (s : Sc),
     allSc (fun s r => φ s r && ψ s r) s l = (allSc φ s l && allSc ψ s l)
@@ -52,21 +67,13 @@ theorem allSc_and (φ ψ : Sc → List Byte → Bool) : ∀ (l : List Byte) (s :
     rw [allSc, allSc, allSc, allSc_and φ ψ r]
     cases φ s (c :: r) <;> cases ψ s (c :: r) <;> simp
 
-theorem tidy_good (bs : List Byte) (h : Tidy bs) : Good {} bs := h.2.2.1
-
-theorem tidy_last (bs : List Byte) (h : Tidy bs) :
-    (runSc {} bs).pend = true → (runSc {} bs).empty = false → (runSc {} bs).sp = false := by
-  intro h1 h2
-  have := h.2.2.2
-  unfold LastLinePlain at this
-  rw [h1, h2] at this
-  simpa using this
+theorem tidy_good (bs : List Byte) (h : Tidy bs) : Good {} bs := h.2.2
 
 /-- what `feed` computes on a tidy input, however it is cut -/
 theorem feed_tidy (chunks : List (List Byte)) (hne : ∀ c ∈ chunks, c ≠ []) (hbs : chunks.flatten ≠ [])
     (ht : Tidy chunks.flatten) :
     feed chunks = finish (runA {} chunks.flatten) (runA {} chunks.flatten).ins :=
-  feed_spec chunks hne hbs (tidy_good _ ht) ht.1 (tidy_last _ ht)
+  feed_spec chunks hne hbs (tidy_good _ ht) ht.1
 
 /-- C10: the instructions produced and the lines acted upon do not depend on the chunking -/
 theorem chunk_independent (bs : List Byte) (chunks : List (List Byte)) (hc : chunks.flatten = bs)
@@ -87,6 +94,113 @@ theorem chunk_independent (bs : List Byte) (chunks : List (List Byte)) (hc : chu
     rw [feed_tidy [bs] (by intro c hc'; simp at hc'; rw [hc']; exact hbs) (by rw [h1]; exact hbs)
       (by rw [h1]; exact ht)]
     rw [hc, h1]
+
+/-! ### a trailing empty push (end of the connection)
+
+The daemon pushes an EMPTY buffer when recv() returns 0, drains, and then does the last pull.  An empty push
+that is not the first one is acted upon (`feed` skips empty chunks only as long as no parser exists): the
+pre-examination of a marked stash reads 0 in the empty buffer, so a pending last line is processed by the
+ORDINARY drain loop and the last pull finds nothing to do.  The lines acted upon are the same as without the
+empty push, and so are the instructions - unless that last line completes an event (`EndsInEvent`): the
+drain loop hands it out with the verb of its METHOD (`S`, `U`, `R`), the last pull with that verb marked (`L`,
+`LU`, `LR`; witnesses below: `eof_verb_matters`, `eof_cancel_marked`).  That mark is the only difference
+(`chunk_independent_eof_modL`).  An empty push in the MIDDLE, between a line end and a fold blank, ends the
+line early (`empty_push_in_the_middle_matters`). -/
+
+/-- leading empty pushes are refused by `_ical_init_push` -/
+theorem feed_leading_empty (chunks : List (List Byte)) : feed ([] :: chunks) = feed chunks := rfl
+
+/-- the input ends in a complete line that completes an event: `END:VEVENT` / `END:VTODO` with its newline,
+in a calendar whose `END:VCALENDAR` has not come -/
+def EndsInEvent (bs : List Byte) : Prop :=
+  (runA {} bs).sc.pend = true ∧ (runA {} bs).cur ≠ [] ∧
+    (procLine (runA {} bs).comp (runA {} bs).cur).2 = .ve
+
+instance (bs : List Byte) : Decidable (EndsInEvent bs) := by
+  unfold EndsInEvent; infer_instance
+
+/-- what `feed` computes on a tidy input followed by an empty push, however the input is cut -/
+theorem feed_tidy_eof (chunks : List (List Byte)) (hne : ∀ c ∈ chunks, c ≠ []) (hbs : chunks.flatten ≠ [])
+    (ht : Tidy chunks.flatten) :
+    feed (chunks ++ [[]]) = finishEof (runA {} chunks.flatten) (runA {} chunks.flatten).ins :=
+  feed_spec_eof chunks hne hbs (tidy_good _ ht) ht.1
+
+theorem feed_one (bs : List Byte) (hbs : bs ≠ []) (ht : Tidy bs) :
+    feed [bs] = finish (runA {} bs) (runA {} bs).ins ∧
+    feed [bs, []] = finishEof (runA {} bs) (runA {} bs).ins := by
+  have h1 : [bs].flatten = bs := by simp
+  have hne : ∀ c ∈ [bs], c ≠ [] := by intro c hc'; simp at hc'; rw [hc']; exact hbs
+  have a := feed_tidy [bs] hne (by rw [h1]; exact hbs) (by rw [h1]; exact ht)
+  have b := feed_tidy_eof [bs] hne (by rw [h1]; exact hbs) (by rw [h1]; exact ht)
+  rw [h1] at a b
+  exact ⟨a, b⟩
+
+theorem chunks_nil_of_flatten (chunks : List (List Byte)) (hc : chunks.flatten = [])
+    (hne : ∀ c ∈ chunks, c ≠ []) : chunks = [] := by
+  cases chunks with
+  | nil => rfl
+  | cons c r =>
+    have : c = [] := by simp at hc; exact hc.1
+    exact absurd this (hne c (by simp))
+
+/-- C10 for the daemon's protocol (a final empty push, then the last pull): the instructions produced and the
+lines acted upon do not depend on the chunking -/
+theorem chunk_independent_eof (bs : List Byte) (chunks : List (List Byte)) (hc : chunks.flatten = bs)
+    (hne : ∀ c ∈ chunks, c ≠ []) (ht : Tidy bs) : feed (chunks ++ [[]]) = feed [bs, []] := by
+  by_cases hbs : bs = []
+  · rw [hbs] at hc
+    rw [chunks_nil_of_flatten chunks hc hne, hbs]; rfl
+  · rw [feed_tidy_eof chunks hne (by rw [hc]; exact hbs) (by rw [hc]; exact ht), (feed_one bs hbs ht).2, hc]
+
+/-- the trailing empty push changes nothing in the lines acted upon -/
+theorem eof_lines (bs : List Byte) (chunks : List (List Byte)) (hc : chunks.flatten = bs)
+    (hne : ∀ c ∈ chunks, c ≠ []) (ht : Tidy bs) : (feed (chunks ++ [[]])).2 = (feed [bs]).2 := by
+  by_cases hbs : bs = []
+  · rw [hbs] at hc
+    rw [chunks_nil_of_flatten chunks hc hne, hbs]; rfl
+  · rw [feed_tidy_eof chunks hne (by rw [hc]; exact hbs) (by rw [hc]; exact ht), (feed_one bs hbs ht).1, hc,
+      finishEof_log]
+
+/-- and nothing at all unless the input ends in a line that completes an event -/
+theorem chunk_independent_eof_plain (bs : List Byte) (chunks : List (List Byte)) (hc : chunks.flatten = bs)
+    (hne : ∀ c ∈ chunks, c ≠ []) (ht : Tidy bs) (hev : ¬ EndsInEvent bs) :
+    feed (chunks ++ [[]]) = feed [bs] := by
+  by_cases hbs : bs = []
+  · rw [hbs] at hc
+    rw [chunks_nil_of_flatten chunks hc hne, hbs]; rfl
+  · rw [feed_tidy_eof chunks hne (by rw [hc]; exact hbs) (by rw [hc]; exact ht), (feed_one bs hbs ht).1, hc]
+    exact finishEof_eq _ _ hev
+
+/-- with or without the trailing empty push, however the input is cut: the same lines acted upon and the same
+instructions up to the mark of the last pull on the verb (`stripL`, Ical20: `L`, `LU`, `LR` read as `S`, `U`,
+`R`); no hypothesis on how the input ends -/
+theorem chunk_independent_eof_modL (bs : List Byte) (chunks : List (List Byte)) (hc : chunks.flatten = bs)
+    (hne : ∀ c ∈ chunks, c ≠ []) (ht : Tidy bs) :
+    ((feed (chunks ++ [[]])).1.map stripL, (feed (chunks ++ [[]])).2) =
+      ((feed [bs]).1.map stripL, (feed [bs]).2) := by
+  by_cases hbs : bs = []
+  · rw [hbs] at hc
+    rw [chunks_nil_of_flatten chunks hc hne, hbs]; rfl
+  · rw [feed_tidy_eof chunks hne (by rw [hc]; exact hbs) (by rw [hc]; exact ht), (feed_one bs hbs ht).1, hc]
+    exact finishEof_modL _ _
+
+/-- the marks that `stripL` takes off are those of the last pull: a plain verb stays -/
+theorem stripL_plain : (stripL { verb := "S", lines := [] }).verb = "S" ∧
+    (stripL { verb := "U", lines := [] }).verb = "U" ∧ (stripL { verb := "R", lines := [] }).verb = "R" ∧
+    (stripL { verb := "L", lines := [] }).verb = "S" ∧ (stripL { verb := "LU", lines := [] }).verb = "U" ∧
+    (stripL { verb := "LR", lines := [] }).verb = "R" := by
+  decide
+
+/-- leading empty pushes and one trailing empty push around a chunking without empty chunks -/
+theorem chunk_independent_eof_lead (bs : List Byte) (chunks : List (List Byte)) (n : Nat)
+    (hc : chunks.flatten = bs) (hne : ∀ c ∈ chunks, c ≠ []) (ht : Tidy bs) :
+    feed (List.replicate n [] ++ chunks) = feed [bs] ∧
+    feed (List.replicate n [] ++ (chunks ++ [[]])) = feed [bs, []] := by
+  induction n with
+  | zero => exact ⟨chunk_independent bs chunks hc hne ht, chunk_independent_eof bs chunks hc hne ht⟩
+  | succ n ih =>
+    rw [List.replicate_succ, List.cons_append, List.cons_append, feed_leading_empty, feed_leading_empty]
+    exact ih
 
 /-! ### the stash is never overrun (no hypothesis on the input) -/
 
@@ -205,16 +319,69 @@ example : Tidy calEmptyFold ∧ (calEmptyFold.take 31).getLast? = some 10 ∧ (c
     (feed [calEmptyFold]).1.map (·.lines) = [[[83, 85, 77, 77, 65, 82, 89, 58, 120]]] := by
   decide
 
-/-! ### why `Tidy` has its conjuncts: inputs on which the parse DOES depend on the chunking -/
+/-! ### a last line with a blank, or cut in front of a blank: no longer a condition
 
-/-- without `LastLinePlain`: `A:1 | SP 2 LF` - the last line is not acted upon when cut in front of the space -/
-theorem last_line_matters :
-    (feed [[65, 58, 49], [32, 50, 10]]).2 = [] ∧ (feed [[65, 58, 49, 32, 50, 10]]).2 = [[65, 58, 49, 32, 50]] := by
+`A:1 | SP 2 LF` and `SP | B LF` were the witnesses `last_line_matters`, `leading_space_matters` for the former
+conjunct `LastLinePlain` of `Tidy`: the last pull looked at the first byte of the last chunk (a blank) and took
+the complete last line for one that goes on. -/
+
+/-- `A:1 | SP 2 LF`: the last line is acted upon however it is cut; the input is `Tidy`, not `LastLinePlain` -/
+theorem last_line_independent :
+    (feed [[65, 58, 49], [32, 50, 10]]).2 = [[65, 58, 49, 32, 50]] ∧
+    (feed [[65, 58, 49, 32, 50, 10]]).2 = [[65, 58, 49, 32, 50]] ∧
+    Tidy [65, 58, 49, 32, 50, 10] ∧ ¬ LastLinePlain [65, 58, 49, 32, 50, 10] := by
   decide
 
-/-- without `LastLinePlain`, at the very start: `SP | B LF` against `SP B LF` -/
-theorem leading_space_matters :
-    (feed [[32], [66, 10]]).2 = [[32, 66]] ∧ (feed [[32, 66, 10]]).2 = [] := by
+/-- at the very start: `SP | B LF` and `SP B LF` -/
+theorem leading_space_independent :
+    (feed [[32], [66, 10]]).2 = [[32, 66]] ∧ (feed [[32, 66, 10]]).2 = [[32, 66]] ∧
+    Tidy [32, 66, 10] ∧ ¬ LastLinePlain [32, 66, 10] := by
+  decide
+
+/-! ### the trailing empty push: where it does matter -/
+
+/-- `BEGIN:VCALENDAR`, `BEGIN:VEVENT`, `UID:a`, `END:VEVENT` (each with LF), no `END:VCALENDAR` -/
+def calOpen : List Byte :=
+  [66, 69, 71, 73, 78, 58, 86, 67, 65, 76, 69, 78, 68, 65, 82, 10,
+   66, 69, 71, 73, 78, 58, 86, 69, 86, 69, 78, 84, 10,
+   85, 73, 68, 58, 97, 10,
+   69, 78, 68, 58, 86, 69, 86, 69, 78, 84, 10]
+
+set_option maxRecDepth 100000 in
+/-- why `chunk_independent_eof` has `feed [bs, []]` on the right and `chunk_independent_eof_plain` its last
+hypothesis: the event completed by the last line comes out as `S` after an empty push, as `L` without -/
+theorem eof_verb_matters :
+    Tidy calOpen ∧ EndsInEvent calOpen ∧
+    view (feed [calOpen, []]) = ([("S", [[85, 73, 68, 58, 97]])], (feed [calOpen]).2) ∧
+    view (feed [calOpen]) = ([("L", [[85, 73, 68, 58, 97]])], (feed [calOpen]).2) := by
+  decide
+
+/-- the same with `METHOD:CANCEL` behind the first line -/
+def calOpenCancel : List Byte :=
+  calOpen.take 16 ++ [77, 69, 84, 72, 79, 68, 58, 67, 65, 78, 67, 69, 76, 10] ++ calOpen.drop 16
+
+set_option maxRecDepth 100000 in
+/-- a cancellation completed by the last line is an instruction either way (formerly `eof_cancel_matters`:
+none without the empty push): `U` after an empty push, `LU` from the last pull -/
+theorem eof_cancel_marked :
+    Tidy calOpenCancel ∧ EndsInEvent calOpenCancel ∧
+    view (feed [calOpenCancel, []]) = ([("U", [[85, 73, 68, 58, 97]])], (feed [calOpenCancel]).2) ∧
+    view (feed [calOpenCancel]) = ([("LU", [[85, 73, 68, 58, 97]])], (feed [calOpenCancel]).2) := by
+  decide
+
+/-- an empty push in the middle, between a line end and the fold blank, ends the line early: the hypothesis
+`∀ c ∈ chunks, c ≠ []` cannot be dropped for inner chunks -/
+theorem empty_push_in_the_middle_matters :
+    (feed [[65, 58, 49, 10], [], [32, 50, 10]]).2 = [[65, 58, 49], [32, 50]] ∧
+    (feed [[65, 58, 49, 10], [32, 50, 10]]).2 = [[65, 58, 49, 50]] := by
+  decide
+
+/-! ### why `Tidy` has its conjuncts: inputs on which the parse DOES depend on the chunking -/
+
+/-- without `no backslash` (finding D17): `A:\ | n LF` - the byte behind a backslash is skipped only when it is
+in the same buffer -/
+theorem backslash_matters :
+    (feed [[65, 58, 92], [110, 10]]).2 = [[65, 58, 92, 110]] ∧ (feed [[65, 58, 92, 110, 10]]).2 = [[65, 58, 92]] := by
   decide
 
 /-- a logical line of 1204 raw bytes that unfolds to 2 (`A:`, 600 CRs, a fold, 600 CRs): every NL-free run
